@@ -40,10 +40,30 @@ def load_corpus(pid):
 
 def run(ctx):
     pid = ctx.pid
-    lean.check_obligations(ctx, ENGINE_DIR, MODULES[pid], EXES, AUDIT, THEOREMS[pid])
+    ok = lean.check_obligations(ctx, ENGINE_DIR, MODULES[pid], EXES, AUDIT, THEOREMS[pid])
+    if ok and ctx.tier == "thorough" and not ctx.replay:
+        lean.leanchecker(ctx, MODULES[pid])
     if pid == "C15":
-        from engines import io_engine_c15
-        io_engine_c15.run(ctx)
+        from engines import io_engine_c15 as eng
     else:
-        from engines import io_engine_c16
-        io_engine_c16.run(ctx)
+        from engines import io_engine_c16 as eng
+    eng.run(ctx)
+    # contract step 3: something no longer checks (theorem / build / unexplained correspondence
+    # mismatch) but P was not seen to fail: search the neighbourhood of the diverging inputs
+    if not ctx.replay and not unexplained_spec(ctx) and (unexplained_corr(ctx) or any(not o[1] for o in ctx.obligations)):
+        eng.search(ctx, [c["input"] for c in unexplained_corr(ctx) if c.get("input")][:10])
+
+
+def _open_sigs(ctx):
+    from common import findings
+    return {k["signature"] for k in findings.load() if k["property"] == ctx.pid and k.get("status") == "open"}
+
+
+def unexplained_corr(ctx):
+    sigs = _open_sigs(ctx)
+    return [c for c in ctx.corr if not (c.get("signature") and c["signature"] in sigs)]
+
+
+def unexplained_spec(ctx):
+    sigs = _open_sigs(ctx)
+    return [s for s in ctx.spec if s["signature"] not in sigs]
